@@ -3,6 +3,7 @@ C19 — Simulations are reproducible and time is monotone.  (partial: see DESIGN
 -/
 import FsVerif.Proofs.PosExtra
 import FsVerif.Proofs.BufExtra
+import FsVerif.Proofs.Machine
 namespace FsVerif.Props.C19
 open FsVerif PosStore
 
@@ -18,5 +19,11 @@ theorem pos_deterministic (cfg : PosCfg) (ops : List Op) : run (init cfg) ops = 
 theorem buf_time_monotone {s : BufStore} (h : BufStore.ReachD s) :
     (∀ dt, (s.adv dt).now = s.now + dt) ∧ s.settle.now = s.now ∧ s.kstep.now = s.now :=
   ⟨BufStore.adv_now s, (BufStore.settle_full (BufStore.reachD_full h)).2, (BufStore.kstep_full (BufStore.reachD_full h)).2⟩
+
+/-- Node automata reject (flag, ignore) an activation whose time lies before the latest one they
+    have seen: no component model ever processes a decreasing clock. -/
+theorem machine_rejects_past (s : MacState) (proc t : Nat) (a : Ans) (h : t < s.now) :
+    (s.step proc t a) = ({ s with flagged := true }, [.bad]) := by
+  unfold MacState.step; simp [h]
 
 end FsVerif.Props.C19
